@@ -35,6 +35,9 @@ func H_C14(tbl, router, stage int) {
 	p := nondetString("path", pathCap)
 	verifAssume(!strings.HasSuffix(p, "/"))
 	verifAssume(len(strings.Trim(p, "/")) > 0)
+	if vMinSegs > maxSeg {
+		maxSeg = vMinSegs // the table has longer templates than the usual bound
+	}
 	verifAssume(strings.Count(strings.Trim(p, "/"), "/") < maxSeg)
 	// recorded finding: a regex variable that admits the empty string (table 23) under RouterJSR311
 	// recorded finding: p names exactly the prefix in front of a last variable whose expression admits ""
